@@ -41,7 +41,8 @@ class AlignmentTagReadGrouper(AbstractReadGrouper):
 
     def get_group_id(self, alignment, filename=None):
         try:
-            tag_value = alignment.get_tag(self.tag)
+            # tags may be numeric (e.g. HP:i:1), group ids are strings
+            tag_value = str(alignment.get_tag(self.tag))
         except KeyError:
             logger.warning("Tag %s is not present for read %s, skipping" % (self.tag, alignment.query_name))
             self.read_groups.add(self.default_group_id)
